@@ -30,6 +30,13 @@ impl Out {
             Out::BadUtf8(_) => "bad-utf8".into(),
         }
     }
+    /// like `summary`, but failures carry the first line of their message (deterministic text)
+    pub fn summary_with_error(&self) -> String {
+        match self {
+            Out::Err(m) => format!("err:{m}"),
+            other => other.summary(),
+        }
+    }
     pub fn ok(&self) -> Option<&str> {
         match self {
             Out::Ok(s) => Some(s),
